@@ -968,7 +968,26 @@ def _generic_catalogue():
     return cat
 
 
-def H_generic(name):
+_GENERIC_FILES = {
+    "weekyear-rule": ("_simple_week_year_rule.py", "_week_year_rules.py"),
+    "weekyear-rule-regular": ("_simple_week_year_rule.py", "_week_year_rules.py"),
+    "odt-with-calendar": ("_offset_date_time.py", "_offset_time.py"),
+    "odt-with-offset": ("_offset_date_time.py", "_offset_time.py"),
+    "dateinterval-len": ("_date_interval.py",),
+    "dateinterval-iter": ("_date_interval.py",),
+    "period-between-hebrew": ("_hebrew_year_month_day_calculator.py::_add_months|_months_between|_get_days_in_month", "_year_start_cache_entry.py",
+                              "_hebrew_scriptural_calculator.py::__get_or_populate_cache|__compute_cache_entry"),
+    "pattern-format": ("_stepped_pattern_builder.py::format|append_format|parse|parse_partial", "_local_date_time_pattern.py", "_local_date_pattern.py"),
+    "pattern-parse": ("_stepped_pattern_builder.py::format|append_format|parse|parse_partial", "_local_date_time_pattern.py", "_local_date_pattern.py",
+                      "_local_date_pattern_parser.py::calculate_value|_calculate_value"),
+    "zone-tail-lookups": ("_caching_zone_interval_map.py", "_cached_date_time_zone.py", "_precalculated_date_time_zone.py", "_standard_daylight_alternating_map.py",
+                          "_zone_recurrence.py", "_zone_year_offset.py"),
+    "zone-warm-hit-vs-alias": ("_caching_zone_interval_map.py", "_cached_date_time_zone.py"),
+    "zone-map-local": ("_caching_zone_interval_map.py", "_cached_date_time_zone.py", "_zone_local_mapping.py", "_date_time_zone.py::map_local|at_start_of_day"),
+}
+
+
+def H_generic(name, whole_library=False):
     build, warm, op_a, op_b, _ = _generic_catalogue()[name]
 
     def fresh():
@@ -991,7 +1010,7 @@ def H_generic(name):
             return ("error", type(e).__name__), "thread raised %r" % (e,)
         ok = (s.results[0] == exp_a, s.results[1] == exp_b)
         return ok, (None if all(ok) else "two threads querying shared objects (%s) got %r / %r, sequential answers on fresh objects are %r / %r" % (name, s.results[0], s.results[1], exp_a, exp_b))
-    return make, check, ("*pyoda_time*",)
+    return make, check, (("*pyoda_time*",) if whole_library else _GENERIC_FILES[name])
 
 
 def H_hebrew_warm(numbering):
@@ -1049,6 +1068,8 @@ def _harness_table(tier):
     for g in ("weekyear-rule", "weekyear-rule-regular", "odt-with-calendar", "odt-with-offset", "dateinterval-len", "dateinterval-iter", "period-between-hebrew",
               "pattern-format", "pattern-parse", "zone-tail-lookups", "zone-warm-hit-vs-alias", "zone-map-local"):
         hs.append(("H20-generic:%s" % g, lambda g=g: H_generic(g)))
+        if tier != "quick":
+            hs.append(("H21-generic-whole-library:%s" % g, lambda g=g: H_generic(g, True)))
     hs.append(("H9-pattern-cache", H_pattern_cache))
     hs.append(("H10-current-culture", H_current_culture))
     return hs
@@ -1072,7 +1093,7 @@ def _run_harness(idx):
     # choose what is affordable: cost of a plan ~ executions x points; executions ~ P (bound 1) or P^2/2 (bound 2)
     budget = 24_000 if tier == "quick" else 400_000
     plans = []
-    for opcodes in ((False,) if name.startswith(("H20-generic", "H2-hebrew-warm")) else (True, False)):
+    for opcodes in ((False,) if name.startswith(("H21-generic", "H2-hebrew-warm")) else (True, False)):
         try:
             sched.run_schedule(make, [], files, opcodes)
             s0, _ = sched.run_schedule(make, [], files, opcodes)
@@ -1080,7 +1101,7 @@ def _run_harness(idx):
             acc.degrade("harness %s: probe run failed (%s)" % (name, type(e).__name__))
             return acc
         P = max(1, len(s0.trace))
-        if name.startswith(("H20-generic", "H2-hebrew-warm")):
+        if name.startswith(("H21-generic", "H2-hebrew-warm")):
             # whole-library tracing: always the complete single-preemption space at this granularity (about P executions);
             # the CPU-time cap of explore() bounds the cost and is reported if it bites
             plans.append((1, opcodes, 4 * P + 50))
@@ -1097,7 +1118,7 @@ def _run_harness(idx):
         plans = [(1, False, max(50, budget // max(1, P)))]
     for bound, opcodes, max_runs in plans:
         try:
-            r = sched.explore(make, files, bound, opcodes, check, max_runs, max_seconds=((8 if name.startswith("H20-generic") else 30) if tier == "quick" else 300))
+            r = sched.explore(make, files, bound, opcodes, check, max_runs, max_seconds=(30 if tier == "quick" else 300))
         except sched.ReplayDivergence as e:
             acc.degrade("harness %s (%s granularity): schedule replay diverged (%s) - harness fault, not counted" % (name, "opcode" if opcodes else "line", str(e)[:100]))
             continue
